@@ -472,3 +472,50 @@ def eval_return(sc, atom_value, maxsteps=120):
             continue
         return ("stuck", k)
     return ("stuck", "too long")
+
+
+def const_discr(prog, n):
+    """discriminant of an enum value that is a literal unit variant (`HeatFlow::Upwards`) -> its index as a switch value, else None"""
+    n = strip(n)
+    if n[0] == "discr":
+        v = strip(n[1])
+        if v[0] == "agg" and "::" in v[1] and not v[3]:
+            adt_path, var = v[1].rsplit("::", 1)
+            a = prog.adts.get(adt_path) or next((x for x in prog.adts.values() if x["path"] == adt_path), None)
+            if a is not None:
+                names = [x["name"] for x in a["variants"]]
+                if var in names:
+                    return str(names.index(var))
+    return None
+
+
+def resolve_helpers(prog, node, atom_value, depth=0):
+    """replace calls of small workspace helpers that contain a case distinction (`w.adjacent_space()`) by the value they return under the
+    given atom assignment (the helper's own CFG is walked with its parameters bound to the call's arguments); other nodes are kept"""
+    if depth > 3 or prog is None:
+        return node
+    n = node
+    k = n[0]
+    if k == "call":
+        args = tuple(resolve_helpers(prog, a, atom_value, depth) for a in n[2])
+        n = ("call", n[1], args, n[3])
+        ids = prog.callee_index().get(n[1], ())
+        if len(ids) == 1:
+            fn = prog.fns[next(iter(ids))]
+            if fn.kind in ("fn", "assocfn") and fn.body.argc == len(args) and fn.body.n <= 40 and not fn.body.loops() and \
+                    any(fn.body.blocks[b]["term"]["t"] == "switch" for b in range(fn.body.n) if not fn.body.is_cleanup(b)):
+                sc = Scope(prog, fn, argmap={i + 1: a for i, a in enumerate(args)})
+                r = eval_return(sc, lambda x: const_discr(prog, x) or atom_value(x))
+                if r is not None and not (isinstance(r, tuple) and r and r[0] == "stuck"):
+                    return resolve_helpers(prog, r, atom_value, depth + 1)
+        return n
+    if k == "proj":
+        from .exprs import mkproj
+        return mkproj(resolve_helpers(prog, n[1], atom_value, depth), n[2])
+    if k == "bin":
+        return ("bin", n[1], resolve_helpers(prog, n[2], atom_value, depth), resolve_helpers(prog, n[3], atom_value, depth))
+    if k == "un":
+        return ("un", n[1], resolve_helpers(prog, n[2], atom_value, depth))
+    if k == "discr":
+        return ("discr", resolve_helpers(prog, n[1], atom_value, depth))
+    return n
